@@ -58,7 +58,7 @@ func C08(tier common.Tier) int {
 	thorough := tier == "thorough"
 	tokens := c08Tokens()
 	run.SetRule("state = one configuration S of exclude-checks; the covering program (all 16 codes, 3 files, 2 packages) is analysed by the real ConfigReader -> IgnoreReader -> checkers path in-process (flag value or environment variable; VerifResetConfig hook between configurations) and the diagnostic set must equal the unrestricted baseline filtered by the ALL>category>code rule. Subsets are enumerated in order of cardinality. Conformance: a spread of configurations is also run on the real binary and the vet driver (flag and env) against the same reference. Non-trivial = S removes at least one and keeps at least one diagnostic.",
-		"quick: all subsets of the 22 real tokens with |S|<=2 in both orders, all ordered sequences with repetition of length<=3 over 7 tokens, all 2^3 sub-chains {ALL,category,code} per code, junk tokens, case/spacing variants, flag and env, each also on the program variant with inert @ignore markers; thorough: all 2^22 subsets in order of cardinality under a time budget (completed cardinality reported)")
+		"quick: all subsets of the 22 real tokens with |S|<=2 in both orders, all ordered sequences with repetition of length<=3 over 7 tokens, all 2^3 sub-chains {ALL,category,code} per code, junk tokens, case/spacing variants, flag and env, each also on the program variant with inert @ignore markers and on a variant with real markers (category / list / ALL) judged against its own unrestricted run; thorough: all 2^22 subsets in order of cardinality under a time budget (completed cardinality reported)")
 	run.Assume("hook: analyzer.VerifResetConfig (build tag verif, overlay) forgets the process-wide cached configuration; nothing else is replaced")
 	base := e1.IgBases()[0]
 	p := base.Program()
@@ -85,6 +85,33 @@ func C08(tier common.Tier) int {
 		common.Fatalf("%v", err)
 	}
 
+	// A third variant carries REAL markers (a category before a function, a file-level list, a trailing category): its
+	// own unrestricted run is the reference for it — exclusion and scoped suppression must compose, whatever S is.
+	real := base.Clone()
+	for _, f := range real.Files {
+		var out []e1.IgLine
+		for i, l := range f.Lines {
+			switch {
+			case f.Pkg == e1.PathU && f.Name == "a.go" && strings.HasPrefix(l.Text, "func f1("):
+				out = append(out, e1.IgLine{Text: "// @ignore IMM"})
+			case f.Pkg == e1.PathU && f.Name == "b.go" && i == 0:
+				out = append(out, e1.IgLine{Text: "// @ignore TONL, PKGO01"}, e1.IgLine{Text: ""})
+			case f.Pkg == e1.PathD && l.Text == "\t_ = T{}":
+				l.Text += " // @ignore CTOR"
+			case f.Pkg == e1.PathU && f.Name == "a.go" && strings.HasPrefix(l.Text, "func f2("):
+				out = append(out, e1.IgLine{Text: "// @ignore ALL"})
+			}
+			out = append(out, l)
+		}
+		f.Lines = out
+	}
+	pReal := real.Program()
+	ldReal, err := prog.Load(pReal)
+	if err != nil {
+		common.Fatalf("%v", err)
+	}
+	var realBaseline []prog.Diag // filled by each worker under the empty configuration
+
 	evalOne := func(run *common.Run, value string, toks []string, viaEnv bool, baseline []prog.Diag) {
 		c08SetConfig(value, viaEnv)
 		res := prog.Analyze(ld, prog.Opts{})
@@ -98,6 +125,21 @@ func C08(tier common.Tier) int {
 			missing, extra := diffKeys(prog.Keys(res.Diags), prog.Keys(resM.Diags))
 			run.Report(common.Cex{Sig: fmt.Sprintf("exclude-with-markers|via=%s|lost=%s|gained=%s|ntokens=%d", via(viaEnv), codesOf(missing), codesOf(extra), len(toks)),
 				Summary: fmt.Sprintf("exclude-checks=%q (via %s): adding inert `// @ignore ZZZ9` comments to the files changes the result: lost %v, gained %v %s", value, via(viaEnv), missing, extra, resM.Panic)})
+		}
+		run.State(1, "", "")
+		// the program with real markers against its own unrestricted run
+		resR := prog.Analyze(ldReal, prog.Opts{})
+		var wantR []string
+		for _, d := range realBaseline {
+			if !c08Excluded(toks, d.Code) {
+				wantR = append(wantR, d.Key())
+			}
+		}
+		sort.Strings(wantR)
+		if gotR := prog.Keys(resR.Diags); strings.Join(gotR, "|") != strings.Join(wantR, "|") || resR.Panic != "" {
+			missing, extra := diffKeys(wantR, gotR)
+			run.Report(common.Cex{Sig: fmt.Sprintf("exclude-with-real-markers|via=%s|removed-but-should-stay=%s|kept-but-should-go=%s|ntokens=%d", via(viaEnv), codesOf(missing), codesOf(extra), len(toks)),
+				Summary: fmt.Sprintf("exclude-checks=%q (via %s) on the program with @ignore IMM / TONL, PKGO01 / CTOR / ALL markers: compared with that program's own unrestricted run, wrongly removed %v, wrongly kept %v %s", value, via(viaEnv), missing, extra, resR.Panic)})
 		}
 		run.State(1, "", "")
 		var want []string
@@ -127,6 +169,11 @@ func C08(tier common.Tier) int {
 			common.Fatalf("baseline crashed: %s %v", baseRes.Panic, baseRes.Errs)
 		}
 		baseline := baseRes.Diags
+		rr := prog.Analyze(ldReal, prog.Opts{})
+		if rr.Panic != "" || len(rr.Errs) > 0 || len(rr.Diags) == 0 || len(rr.Diags) >= len(baseline) {
+			common.Fatalf("the variant with real @ignore markers is not a proper sub-case of the base: %d of %d diagnostics %s", len(rr.Diags), len(baseline), rr.Panic)
+		}
+		realBaseline = rr.Diags
 		seen := map[string]bool{}
 		for _, d := range baseline {
 			seen[d.Code] = true
